@@ -28,6 +28,7 @@ package directive
 //@   trusted
 //@   pure
 //@   requires 0 <= de && de <= 29
+//@   ghostensures ret == kwText(de)
 
 // allowedCtx is the repository's own parent/child table read as a relation (its cells are unit-tested one by one;
 // C06 is about the walk). The table is written only by its initialiser (C16 global-store scan).
@@ -177,3 +178,26 @@ package directive
 //@   inline
 //@ func (Directive).HasNamedParameter
 //@   inline
+
+// ---------------------------------------------------------------- does a line of free text start with a directive keyword? (C05)
+// The answer depends on the line only through "begins with a response code" or "begins with a keyword text": what
+// follows the keyword (a blank, a tab, CR, LF, a comment sign, nothing) plays no part, so a directive after a free text
+// is recognised in LF, CRLF and CR documents alike. kwText(de) is the keyword table as a function of the kind (the
+// table is written only by its initialiser); isCode is IsHTTPResponseCode as a function of its argument.
+//@ globalinv ssLen : len(ss) == 30
+//@ specfn kwText(de int) string
+//@ specfn isCode(s string) bool
+//@ func IsHTTPResponseCode
+//@   trusted
+//@   pure
+//@   ghostensures ret == isCode(s)
+//@ extern strings.HasPrefix
+//@   pure
+//@   ensures ret == strprefix(s, prefix)
+//@ func IsStartWithDirective
+//@   tag C05 C01
+//@   modifies nothing
+//@   ensures [C05] ret <==> len(b) >= 3 && ((49 <= b[0] && b[0] <= 53 && isCode(bstr(b[0:3]))) || (exists de :: 0 <= de && de <= 29 && de != HTTPResponseCode && strprefix(bstr(b), kwText(de))))
+//@   loop 1 invariant 0 <= i && i <= 30 && s == bstr(b) && len(b) >= 3 && !(49 <= b[0] && b[0] <= 53 && isCode(bstr(b[0:3])))
+//@   loop 1 invariant forall de :: 0 <= de && de < i && de != HTTPResponseCode ==> !strprefix(bstr(b), kwText(de))
+//@   loop 1 decreases 30 - i
